@@ -32,9 +32,11 @@ type tcase struct {
 	featgen.Case
 	Forms  map[string]string `json:"forms"`  // main/dep/mid/deep -> source|ast|parse|proto
 	SIMode string            `json:"simode"` // none|standard|extra
+	n      int
 }
 
 type mismatch struct {
+	N      int    `json:"n"`
 	Class  string `json:"class"`
 	Key    string `json:"key"`
 	Detail string `json:"detail"`
@@ -48,7 +50,7 @@ var (
 func report(c *tcase, class, detail string) {
 	outMu.Lock()
 	defer outMu.Unlock()
-	_ = enc.Encode(mismatch{Class: class, Key: c.Key() + formsKey(c), Detail: detail})
+	_ = enc.Encode(mismatch{N: c.n, Class: class, Key: c.Key() + formsKey(c), Detail: detail})
 }
 
 func formsKey(c *tcase) string {
@@ -630,6 +632,7 @@ func main() {
 			fmt.Fprintln(os.Stderr, "bad case:", err)
 			os.Exit(2)
 		}
+		c.n = n
 		n++
 		func() {
 			defer func() {
